@@ -99,7 +99,7 @@ TraceStep ==
   \/ IsEvent("ThreadDone") /\ ThreadDone(Ev.args.kind, Ev.args.j)
   \/ IsEvent("ProcLock") /\ ProcLock(Ev.args.n, Ev.args.k)
   \/ IsEvent("ProcExit") /\ ProcExit(Ev.args.n, Ev.args.k)
-        /\ s'.proc[Ev.args.n][Ev.args.k] = (IF Ev.args.code = 0 THEN "exit0" ELSE "exit1")
+        /\ s'.proc[Ev.args.n][Ev.args.k] = (IF Ev.args.code = 0 THEN "exit0" ELSE IF Ev.args.code = 9 THEN "killed" ELSE "exit1")
   \/ IsEvent("WaitCall") /\ WaitCall
   \/ IsEvent("WaiterStep") /\ WaiterStep
   \/ IsEvent("WaitReturn") /\ WaitReturn /\ s.waiter = Ev.args.r
